@@ -66,6 +66,7 @@ Example C19_bytes_example :
   to_serde_json_object_w (enc (VArr [c19_doc])) = Ok None /\
   to_serde_json_w (enc (VArr [VNum (NFloat F_INF)])) = Err EOther.
 Proof. vm_compute. repeat split; reflexivity. Qed.
+Print Assumptions C19_bytes_example.
 
 (* ---- the first sentence of the property: "converting JSONB bytes (or the value tree) to a serde_json value gives the
    same document an independent strict parser reads from its text rendering: same structure, strings, member sets, and
@@ -128,6 +129,7 @@ Proof.
   - vm_compute. discriminate.
   - apply to_serde_json_w_rfc; assumption.
 Qed.
+Print Assumptions C19_rendering_example.
 
 (* ---- "mutually inverse", the other direction (Extra19.v): for every serde_json value s of serde_json's data model
    (sj_wf: a NegInt is negative, a Float is finite -- Number's own invariants -- and a Map is its key-ordered list of
